@@ -52,6 +52,8 @@ def shards(tier, seed):
         add("A", dict(N=3, G=1), 8, max_sites=1, max_muts=2, states=("", "AA", "1"), cfg="full", anc="AA")
         add("A", dict(N=3, G=1), 8, max_sites=1, max_muts=2, states=("", "AA", "1"), cfg="full", anc="")
         add("A", dict(N=3, G=2), 8, max_sites=1, max_muts=2, states=("0", "1"), cfg="lite", times_mode="known", flagmode="some")
+        # a site with 127..257 distinct alleles (genotype values beyond one signed / unsigned byte)
+        add("M", dict(N=3, G=1), 12, counts=(127, 128, 129, 130, 256, 257))
         add("B", dict(N=3, G=2), 6)
         add("B", dict(N=4, G=2, ), 120, flagmode="allsamples")
         # three trees: a site on an internal breakpoint can be decoded after a site in a strictly later tree
@@ -67,6 +69,7 @@ def shards(tier, seed):
         add("A", dict(N=3, G=2), 8, max_sites=1, max_muts=2, states=("", "AA", "1"), cfg="full", anc="")
         add("A", dict(N=3, G=2, times="weak"), 8, max_sites=1, max_muts=3, states=("0", "1"), cfg="lite", times_mode="known")
         add("A", dict(N=3, G=3), 40, max_sites=1, max_muts=2, states=("0", "1"), cfg="lite")
+        add("M", dict(N=3, G=2), 12, counts=(127, 128, 129, 130, 255, 256, 257, 300))
         add("B", dict(N=3, G=2, times="weak"), 6)
         add("B", dict(N=3, G=3), 20)
         add("B", dict(N=4, G=2), 40)
@@ -326,6 +329,13 @@ def check_A(m, placement, times_mode, cfg, acc, anc="0"):
     acc.sample({"member": m.desc(), "placement": placement})
 
 
+def many_alleles(m, K):
+    """One site (at the last grid point below L) with K distinct alleles: K-2 stacked mutations on node 0
+    and one on the last node, so that requested nodes carry the allele indexes K-2 and K-1."""
+    muts = [(0, f"s{i}") for i in range(1, K - 1)] + [(m.N - 1, f"s{K - 1}")]
+    return [(m.coords[m.G - 1], "s0", muts)]
+
+
 def fixed_multisite(m, variant=0):
     """One site on every half-grid position (so every internal breakpoint carries a site).
     variant 0: mutation on node j%N, a back mutation at site 1, a double hit at site 2;
@@ -447,6 +457,10 @@ def run_shard(spec):
                 if spec.get("only_two") and len(pl) != 2:
                     continue
                 check_A(m, pl, spec.get("times_mode", "unknown"), spec["cfg"], acc)
+    elif spec["name"] == "M":
+        for m in U.shard(U.enumerate_members(flags="all", **b), spec["k"], spec["n"]):
+            for K in spec["counts"]:
+                check_A(m, many_alleles(m, K), "unknown", "lite", acc)
     else:
         fm = spec.get("flagmode", "all")
         fm = c06_flags if fm == "some" else fm
